@@ -76,6 +76,24 @@ func c03Template(b *core.B, class, in string) {
 	if err == nil && t == nil {
 		b.ViolateIn("nil-template-nil-error", in, "plush.NewTemplate returned (nil, nil)")
 	}
+	if err != nil {
+		// the other public entry points parse the same text: they must report an error too
+		var o1, o2 string
+		var e1, e2 error
+		pan := core.Guard(func() {
+			o1, e1 = plush.BuffaloRenderer(in, map[string]interface{}{}, nil)
+			o2, e2 = plush.RenderR(strings.NewReader(in), plush.NewContext())
+		})
+		b.Count("entry-points-on-syntax-error")
+		switch {
+		case pan != nil:
+			b.ViolateIn("entry-point|"+pan.Sig(), in, "BuffaloRenderer/RenderR on an input NewTemplate rejects: "+pan.Value)
+		case e1 == nil || o1 != "":
+			b.ViolateIn("entry-point|BuffaloRenderer-accepts", in, fmt.Sprintf("NewTemplate failed with %q but BuffaloRenderer returned (%q, %v)", err, o1, e1))
+		case e2 == nil || o2 != "":
+			b.ViolateIn("entry-point|RenderR-accepts", in, fmt.Sprintf("NewTemplate failed with %q but RenderR returned (%q, %v)", err, o2, e2))
+		}
+	}
 	if err != nil && t != nil {
 		// the template value handed back with the error must stay unusable:
 		// parsing it again fails again, executing it returns the error
